@@ -1,0 +1,22 @@
+//go:build verif
+// +build verif
+
+package thriftudp
+
+import "net"
+
+// This file exists only under the "verif" build tag (see ../../verif_shims.go).
+
+// VerifConn returns the connection of destination i of a multi-destination
+// transport (the verification harness closes one of them behind the
+// transport's back, as it can for a single-destination transport through
+// Conn()), or nil.
+func (p *TMultiUDPTransport) VerifConn(i int) *net.UDPConn {
+	if i < 0 || i >= len(p.transports) {
+		return nil
+	}
+	if t, ok := p.transports[i].(*TUDPTransport); ok {
+		return t.Conn()
+	}
+	return nil
+}
